@@ -170,7 +170,7 @@ func loadRSA() {
 	if rsaKeys != nil {
 		return
 	}
-	for i := 0; i < 3; i++ {
+	for i := 0; i < 4; i++ { // rsa0-2: 2048 bits; rsa3: 3072 bits (files with RSA recipients of different sizes)
 		b, err := testdataFS.ReadFile(fmt.Sprintf("testdata/rsa%d.pem", i))
 		if err != nil {
 			panic(err)
